@@ -88,12 +88,8 @@ func ruleDel1(c *Ctx) []*Ob {
 		for _, k := range callsToFn(compact, ws) {
 			arg := k.Call.Args[wsIdx]
 			ok := false
-			if b, isB := arg.(*ssa.BinOp); isB && b.Op == token.NEQ {
-				if n, isInt := constInt(b.Y); isInt && n == 0 {
-					if p := paramNamed(compact, "partialCompactStart"); p != nil && sameValue(b.X, p) {
-						ok = true
-					}
-				}
+			if p := paramNamed(compact, "partialCompactStart"); p != nil {
+				ok = isNonZeroTest(arg, p, true)
 			}
 			why := "tombstones are kept exactly for partial compactions (partialCompactStart != 0)"
 			if !ok {
@@ -129,6 +125,32 @@ func ruleDel1(c *Ctx) []*Ob {
 		o.add(c.fname(merge), "mergeInto(includeDeletions=true)", c.instrPos(k), ok, why)
 	}
 	return o.list
+}
+
+// isNonZeroTest: v is a boolean equivalent to (p != 0) when want, or (p == 0) when !want.
+func isNonZeroTest(v ssa.Value, p ssa.Value, want bool) bool {
+	switch x := v.(type) {
+	case *ssa.UnOp:
+		if x.Op == token.NOT {
+			return isNonZeroTest(x.X, p, !want)
+		}
+	case *ssa.BinOp:
+		if x.Op != token.EQL && x.Op != token.NEQ {
+			return false
+		}
+		var val, k ssa.Value = x.X, x.Y
+		if _, isC := val.(*ssa.Const); isC {
+			val, k = k, val
+		}
+		if n, isInt := constInt(k); !isInt || n != 0 {
+			return false
+		}
+		if !sameValue(val, p) {
+			return false
+		}
+		return (x.Op == token.NEQ) == want
+	}
+	return false
 }
 
 // callsToFn: *ssa.Call instructions in f whose static callee is target.
@@ -237,6 +259,49 @@ func ruleDur1(c *Ctx) []*Ob {
 			}
 			construct := "store Store.footer = " + accessPath(st.Val)
 			if found == nil {
+				// a helper that installs its own parameter: the obligation moves to its call sites
+				if p, isP := st.Val.(*ssa.Parameter); isP && !isExportedRoot(f) {
+					idx := -1
+					for k, q := range f.Params {
+						if q == p {
+							idx = k
+						}
+					}
+					sites := c.Callers(f)
+					okAll := len(sites) > 0 && idx >= 0
+					why := ""
+					for _, s := range sites {
+						call, isCall := s.Instr.(*ssa.Call)
+						if !isCall || idx >= len(call.Call.Args) {
+							okAll = false
+							why = "installed through a deferred / go call"
+							break
+						}
+						arg := call.Call.Args[idx]
+						var k0 *ssa.Call
+						for _, k := range callsToFn(s.Caller, persistFooter) {
+							if len(k.Call.Args) >= 3 && sameValue(k.Call.Args[2], arg) {
+								k0 = k
+							}
+						}
+						if k0 == nil {
+							okAll = false
+							why = c.fname(s.Caller) + " hands a footer to " + f.Name() + " that it never persisted"
+							break
+						}
+						if g, w := precededAndGuardedBy(s.Caller, k0, call); !g {
+							okAll = false
+							why = fmt.Sprintf("%s calls %s at %s: %s", c.fname(s.Caller), f.Name(), c.instrPos(call), w)
+							break
+						}
+						why = fmt.Sprintf("helper: every caller (%s, …) calls it behind the nil-error edge of persistFooter on the same footer", c.fname(s.Caller))
+					}
+					if !okAll && why == "" {
+						why = "the helper has no callers"
+					}
+					o.add(fn, construct, c.instrPos(st), okAll, why)
+					continue
+				}
 				o.add(fn, construct, c.instrPos(st), false,
 					"the value published as the store's footer was never handed to persistFooter in this function")
 				continue
